@@ -112,6 +112,24 @@ def law_prefixedarray(p):
             C.FocusedSeq("items", "count" / C.Rebuild(c, len_(this.items)), "items" / x[this.count])], None, "list"
 
 
+def law_prefixedarray_lazyparent(p):
+    """the equivalence also holds where a parent measures its members instead of parsing them (PrefixedArray answers through its
+    own _actualsize, the expansion is parsed for real): both must leave the parent at the same place"""
+    cf, sub, parent = p
+    c = {"Byte": C.Byte, "VarInt": C.VarInt, "Int16ul": C.Int16ul, "Int8sb": C.Int8sb}[cf]
+
+    def sides():
+        x = SUBS[sub]()
+        return [C.PrefixedArray(c, x), C.FocusedSeq("items", "count" / C.Rebuild(c, len_(this.items)), "items" / x[this.count])]
+
+    def wrap(inner):
+        if parent == "lazyarray":
+            return C.FocusedSeq("m", "l" / C.LazyArray(2, inner), "t" / C.Byte, "m" / C.Computed(lambda ctx: [[list(e) for e in ctx.l], ctx.t]))
+        return C.FocusedSeq("m", "l" / C.LazyStruct(inner, "u" / C.Byte, inner), "t" / C.Byte, "m" / C.Computed(lambda ctx: [ctx.l.u, ctx.t]))
+    a, b = sides()
+    return [wrap(a), wrap(b)], None, "any"
+
+
 def law_bitstruct(p):
     widths, = p
     def members():
@@ -210,7 +228,7 @@ SUBS = {
 }
 
 LAWS = {"bytesint_bits": law_bytesint_bits, "int24": law_int24, "alias": law_alias, "short": law_short, "floatalias": law_floatalias,
-        "bitalias": law_bitalias, "optional": law_optional, "if": law_if, "padding": law_padding, "prefixedarray": law_prefixedarray,
+        "bitalias": law_bitalias, "optional": law_optional, "if": law_if, "padding": law_padding, "prefixedarray": law_prefixedarray, "prefixedarray-lazyparent": law_prefixedarray_lazyparent,
         "bitstruct": law_bitstruct, "alignedstruct": law_alignedstruct, "enum": law_enum, "hex": law_hex, "operators": law_operators,
         "restreamed": law_restreamed}
 
@@ -245,6 +263,10 @@ def instances():
     for cf in ("Byte", "VarInt", "Int16ul", "Int8sb"):
         for sub in ("Byte", "Int16ub", "CString", "Struct", "Flag"):
             out.append(("prefixedarray", [cf, sub]))
+    for cf in ("Byte", "VarInt", "Int16ul"):
+        for sub in ("Byte", "Int16ub", "Int24ub", "CString", "VarInt", "Struct", "Flag"):
+            for parent in ("lazyarray", "lazystruct"):
+                out.append(("prefixedarray-lazyparent", [cf, sub, parent]))
     for widths in ([8], [1, 7], [4, 4], [3, 5, 8], [1, 2, 3], [12, 4], [7, 9], [1], [16], [5, 6, 5], [24, 8], [9]):
         out.append(("bitstruct", [widths]))
     for m in (2, 3, 4, 8):
